@@ -25,7 +25,8 @@ class Sim:
     def reset(self):
         self.log = []            # (seq, actor, kind, file, *args)
         self.actor = "main"      # name of the running actor (set by the scheduler)
-        self.dead = set()        # actors that were killed
+        self.killed = set()      # (actor, epoch) of killed actors; never shrinks within a run
+        self.epoch = 0           # incremented by every simulated process restart
         self.faults = {}         # fired fault counters  kind -> n
         self.write_plan = None   # dict or None: see disk.Gate
         self.write_chunk = 1 << 30
@@ -48,6 +49,12 @@ class Sim:
             raise SimAbort("event budget exceeded")
         if yield_ and s is not None and s.is_actor_thread():
             s.yield_point()
+
+    def kill_current(self):
+        self.killed.add((self.actor, self.epoch))
+
+    def is_dead(self):
+        return (self.actor, self.epoch) in self.killed
 
     def fault(self, kind):
         self.faults[kind] = self.faults.get(kind, 0) + 1
